@@ -802,6 +802,16 @@ def rand_pcirc(rng, n):
             gates.append(dict(name="RY", t=[rng.randrange(n)], params=[rng.randint(-20, 20) * UNIT]))
     if kind == "U":
         nparams = sum(1 for g in gates if g["name"].startswith("Parametric"))
+    elif rng.random() < 0.2:
+        # a one-to-one mapping with unit coefficients in an order different from the declaration order ("trivial" mapping
+        # that is not the identity), parameters passed bare or as {p: 1.0}
+        pg = [g for g in gates if g["name"].startswith("Parametric")]
+        nparams = len(pg)
+        perm = list(range(nparams))
+        rng.shuffle(perm)
+        for g, i in zip(pg, perm):
+            g["lin_int"] = dict(coefs={i: 1}, const=0)
+            g["bare"] = rng.random() < 0.5
     return kind, nparams, gates
 
 
@@ -824,6 +834,8 @@ def build_pcirc(kind, n, nparams, gates):
                 if li["const"] != 0:
                     fn[CONST] = li["const"] * UNIT
                 args = [fn]
+                if g.get("bare") and li["const"] == 0 and list(li["coefs"].values()) == [1]:
+                    args = [ps[next(iter(li["coefs"]))]]  # the bare Parameter form of the same function
             if nm == "ParametricPauliRotation":
                 pc.add_ParametricPauliRotation_gate(list(g["t"]), list(g["pauli"]), *args)
             else:
